@@ -54,6 +54,9 @@ fn collision_case(name: &str, roles: u32, position: &str) -> (String, String, St
     let m: &RsCelMacro = &|_i, _this, _args| CelValue::from_string("macro".into());
     let src = match position {
         "value" => name.to_string(),
+        // receiver syntax on a non-map and on a map that has no such field
+        "method" => format!("arg.{}()", name),
+        "method-map" => format!("mm.{}()", name),
         _ => format!("{}(arg)", name),
     };
     let r = guard(|| {
@@ -64,6 +67,9 @@ fn collision_case(name: &str, roles: u32, position: &str) -> (String, String, St
         ctx.add_program_str("main", &src)?;
         let mut b = BindContext::new();
         b.bind_param("arg", CelValue::from_int(5));
+        let mut mm = std::collections::HashMap::new();
+        mm.insert("other".to_string(), CelValue::from_int(1));
+        b.bind_param("mm", CelValue::Map(mm));
         if roles & 2 != 0 {
             b.bind_param(name, CelValue::from_string("variable".into()));
         }
@@ -100,7 +106,8 @@ fn collision_case(name: &str, roles: u32, position: &str) -> (String, String, St
             } else if roles & 16 != 0 {
                 "\"macro\"".to_string()
             } else if has_type {
-                "constructor".to_string()
+                // the statement orders the constructor only for the plain call form
+                if position == "call" { "constructor".to_string() } else { "any".to_string() }
             } else {
                 "Err".to_string()
             }
@@ -130,7 +137,7 @@ fn check_collisions(acc: &mut Acc) {
             if roles & 1 != 0 {
                 continue;
             }
-            for position in ["value", "call"] {
+            for position in ["value", "call", "method", "method-map"] {
                 let (expected, actual, src) = collision_case(name, roles, position);
                 let nroles = (roles >> 1).count_ones() + crate::gen::is_type_name(name) as u32 + crate::model::is_builtin_name(name) as u32;
                 let canon = format!("{} roles={:05b} {}", name, roles, position);
@@ -143,6 +150,7 @@ fn check_collisions(acc: &mut Acc) {
                         // legitimately handles the call
                         builtin_callable || actual.starts_with("Err")
                     }
+                    "any" => !actual.starts_with("PANIC"),
                     "constructor" => match constructor_result(name) {
                         Some(c) => actual == c,
                         None => !actual.starts_with("PANIC"),
@@ -163,7 +171,7 @@ fn check_collisions(acc: &mut Acc) {
             }
         }
     }
-    acc.mark_exhaustive("collisions", "13 names x all subsets of {variable, program, function, macro} x {value, call} position");
+    acc.mark_exhaustive("collisions", "13 names x all subsets of {variable, program, function, macro} x {value, call, method on a non-map, method on a map} position");
     // member position: a map field wins over a method of the same name
     for field in ["size", "map", "contains", "has", "plain"] {
         let r = guard(|| {
@@ -340,6 +348,21 @@ pub const EDGE_CONSTRUCTS: &[(&str, &str)] = &[
     ("ternary-arm", "(true ? {} : 0)"),
     ("match-arm", "(match 1 { case _: {} })"),
     ("reduce-seed", "[0].reduce(a, e, a + e, {})"),
+    // the macro body is the FIRST mention, so that in a cycle it is the body that carries the recursion
+    ("reduce-step", "[0].reduce(a, e, a + {}, 0)"),
+    ("map3-body", "[0].map(e, true, {})[0]"),
+    ("map3-pred", "([0].map(e, {} > 0, 7).size() * {})"),
+    ("filter-pred", "([0].filter(e, {} > 0).size() * {})"),
+    ("all-body", "([0].all(e, {} > 0) ? {} : 0)"),
+    ("exists-body", "([0].exists(e, {} > 0) ? {} : 0)"),
+    ("exists_one-body", "([0].exists_one(e, {} > 0) ? {} : 0)"),
+    ("map-over-map-body", "{'k': 0}.map(e, {})[0]"),
+    ("map3-over-map-body", "{'k': 0}.map(e, true, {})[0]"),
+    ("map3-over-map-pred", "({'k': 0}.map(e, {} > 0, 7).size() * {})"),
+    ("filter-over-map-pred", "({'k': 0}.filter(e, {} > 0).size() * {})"),
+    ("nested-macro-body", "[0].map(e, [0].map(f, {})[0])[0]"),
+    ("match-scrutinee", "((match {} { case _: 0 }) + {})"),
+    ("method-receiver", "[{}].size() * {}"),
 ];
 
 fn edge_expr(construct: usize, target: &str) -> String {
@@ -406,10 +429,7 @@ impl Graph {
         for (a, b, c) in &self.edges {
             if *a == i {
                 // has(..) ? .. and the filter predicate evaluate the target twice
-                let mult = match EDGE_CONSTRUCTS[*c % EDGE_CONSTRUCTS.len()].0 {
-                    "has" | "macro-pred" => 2,
-                    _ => 1,
-                };
+                let mult = EDGE_CONSTRUCTS[*c % EDGE_CONSTRUCTS.len()].1.matches("{}").count().max(1) as u64;
                 total = total.saturating_add(self.cost(*b, d + 1, memo).saturating_mul(mult));
             }
         }
@@ -654,7 +674,7 @@ fn run(opts: &Opts, acc: &mut Acc) {
             }
         }
     }
-    acc.mark_exhaustive("edge-constructs", "each of the 14 referencing constructs on a single edge, a self-loop, a 2-cycle, a 3-cycle and a diamond");
+    acc.mark_exhaustive("edge-constructs", "each of the 29 referencing constructs on a single edge, a self-loop, a 2-cycle, a 3-cycle and a diamond");
     let lens: Vec<usize> = if opts.tier == Tier::Thorough { (1..=64).collect() } else { vec![1, 2, 3, 8, 15, 16, 17, 24, 31, 32, 33, 48, 64] };
     for l in lens {
         check_chain(l, acc);
